@@ -234,7 +234,15 @@ func runOversize(in input) lib.Case {
 	}
 	w.waitDelivered(0, 0, 1)
 	before := w.tabCount(0)
-	boundedDo(10*time.Second, func() { pr.Send(w.S.ServerIdentity, &BigC09{Pad: make([]byte, 5000)}) })
+	// The frame is written on the peer's end of THAT connection (Conn.Send), not through the peer's
+	// Router.Send: if S drops the connection while the 5000 bytes are still being written, Router.Send
+	// would dial again and resend, S would drop a second connection and tell its handlers a second time
+	// (seen under machine load). One connection, one oversize frame, one drop.
+	pl, ok := connListBounded(pr, w.S.ServerIdentity.GetID())
+	if !ok || len(pl) == 0 {
+		return cutCase("classify:tcp-oversize", "the live TCP peer has no connection with S after a delivered message", false, len(pl))
+	}
+	boundedDo(10*time.Second, func() { pl[0].Send(&BigC09{Pad: make([]byte, 5000)}) })
 	left := waitUntil(func() bool { return w.tabCount(0) < before }, 10*time.Second)
 	w.mu.Lock()
 	calls := 0
@@ -244,7 +252,8 @@ func runOversize(in input) lib.Case {
 	w.mu.Unlock()
 	coq := fmt.Sprintf("CClassDirect ETooBig false %d %s %d", in.NH, lib.Bool(left), calls)
 	return lib.Case{Coq: coq, Class: "classify:tcp-oversize", Nontrivial: true,
-		Obs: map[string]interface{}{"connections_before": before, "loop_left": left, "handler_calls": calls}}
+		Obs: map[string]interface{}{"connections_before": before, "connections_after": w.tabCount(0), "loop_left": left, "handler_calls": calls,
+			"identities_received_by_S": w.identitiesAtS()}}
 }
 
 func runClassify(in input) lib.Case {
